@@ -589,3 +589,39 @@ def run_falsy_cached(seed=0):
     finally:
         shutil.rmtree(scratch, ignore_errors=True)
     return calls, problems
+
+
+def run_lazy_values_cached(seed=0):
+    """fields whose value is a one-shot / lazy object (a generator, `iter(...)`, `zip`, `map`, `range`, a dict view) behind a RAM cache:
+    the cache stores whatever the function returned - the repeated call executes nothing upstream and returns the very same object"""
+    paths.use_repo()
+    import connectome as c
+    problems, calls = [], 0
+    makers = {'generator': lambda i: (ch for ch in i), 'iter': lambda i: iter([i, i]), 'zip': lambda i: zip(i, i), 'map': lambda i: map(str, [i]),
+              'range': lambda i: range(3), 'dict-view': lambda i: {i: 1}.keys(), 'filter': lambda i: filter(None, [i])}
+    for name, mk in makers.items():
+        for size in (None, 3):
+            count = []
+
+            def fx(id, mk=mk, count=count):
+                count.append(id)
+                return mk(id)
+            fx.__defaults__ = None
+
+            def fy(id):
+                count.append(id)
+                return mk(id)
+            try:
+                pipe = c.Transform(x=fy) >> c.CacheToRam(size=size)
+                first = pipe.x('ab')
+                second = pipe.x('ab')
+                third = pipe.x('ab')
+                calls += 3
+                if len(count) != 1:
+                    problems.append({'value': name, 'msg': f'a field returning a {name} object behind CacheToRam(size={size}): three identical calls executed the function '
+                                                           f'{len(count)} times'})
+                elif second is not first or third is not first:
+                    problems.append({'value': name, 'msg': f'a field returning a {name} object behind CacheToRam(size={size}): the repeated call returned another object'})
+            except Exception as e:
+                problems.append({'value': name, 'msg': f'a field returning a {name} object behind CacheToRam(size={size}) raised {exc_name(e)}: {str(e)[:100]}'})
+    return calls, problems
